@@ -43,7 +43,8 @@ def main():
             if only and (d / "meta.json").exists():
                 old = json.loads((d / "meta.json").read_text()).get("checks", {})
                 prev = json.loads((d / "meta.json").read_text())
-                todo = prev.get("named_but_quiet", []) if only == "quiet" else only.split(",")
+                todo = (prev.get("named_but_quiet", []) if only == "quiet" else
+                        prev.get("caught_by", []) if only == "caught" else only.split(","))
                 if not todo:
                     continue
             with ThreadPoolExecutor(j) as ex:
@@ -59,7 +60,9 @@ def main():
                     "ran": [f"tools/confirm_seed.sh <dir> {name}",
                             "git apply patch.diff in a scratch worktree; LYMPH_REPO=<worktree> ./check <id> --skip-proofs for every claimed id"]}
             (d / "meta.json").write_text(json.dumps(meta, indent=1))
-            print(name, "named", named, "caught_by", meta["caught_by"], "named_but_quiet", meta["named_but_quiet"], flush=True)
+            lost = sorted(p for p in todo if old.get(p, {}).get("result") == "caught" and checks[p]["result"] != "caught") if only else []
+            print(name, "named", named, "caught_by", meta["caught_by"], "named_but_quiet", meta["named_but_quiet"],
+                  ("LOST " + str(lost)) if lost else "", flush=True)
         finally:
             run(f"git -C /repo worktree remove --force {w}")
 
